@@ -13,7 +13,9 @@
     - the relation table (output, input_1, input_2) in iteration order is an argument of [calculate]
       and is tabulated from ChopRelation.get_possible_combinations() on every run;
     - python's int() is truncation ([Ztrunc]); counts are [Z]; python's float**int is [powerRZ],
-      float**float is [Rpower] (the model is about positive ratios, the property's quantifier). *)
+      float**float is [Rpower] (the model is about positive ratios, the property's quantifier);
+    - Proofs/C03_SourceEq.v (compiled on every run) proves that the twelve relations below are equal, for all
+      arguments, to the translation Gen/C03/Source.v of relations.py as it is in the working tree. *)
 From Coq Require Import Reals ZArith List Bool.
 From Flocq Require Import Core.Raux.
 Import ListNotations.
@@ -64,10 +66,13 @@ Variable L : R.
 
 Definition valid_length : bool := Rltb 0 L.
 
-(* get_start_size__count__c2c_expansion *)
+(* get_start_size__count__c2c_expansion; 1 - r^n = 0 outside the band (r = -1, n even) is python's
+   ZeroDivisionError *)
 Definition start_count_c2c (n : Z) (r : R) : option R :=
   guard valid_length (guard (1 <=? n)%Z
-    (Some (if Rltb tau (Rabs (r - 1)) then L * (1 - r) / (1 - powerRZ r n) else L / IZR n))).
+    (if Rltb tau (Rabs (r - 1)) then
+       guard (negb (Reqb (1 - powerRZ r n) 0)) (Some (L * (1 - r) / (1 - powerRZ r n)))
+     else Some (L / IZR n))).
 
 (* get_start_size__end_size__total_expansion *)
 Definition start_end_total (e E : R) : option R :=
